@@ -19,7 +19,8 @@ import (
 	"github.com/AdguardTeam/urlfilter/rules"
 )
 
-var lkTokens = []string{"a", "ab", "x.yz", ".", "-", "1", "1.2.3.4", "::1", " ", "\t", "#", "@", "$", "?", "%", ",", "~", "!", "*", "|"}
+// the last two: a vertical tab and a no-break space (C2 A0) - white space for strings.TrimSpace, not for the field splitter
+var lkTokens = []string{"a", "ab", "x.yz", ".", "-", "1", "1.2.3.4", "::1", " ", "\t", "#", "@", "$", "?", "%", ",", "~", "!", "*", "|", "\v", "\u00a0"}
 
 func lkFields(max int) []string {
 	var nonBlank []string
@@ -282,7 +283,7 @@ func cmdDriveLineKind(args []string) error {
 	toks := append(append([]string{}, lkTokens...), "example.org", "sub.example.co.uk", "xn--e1afmkfd.xn--p1ai", "xn--ab", "EXAMPLE.Com", "a-", "-a", "a_b",
 		"0.0.0.0", "127.0.0.1", "010.1.1.1", "256.1.1.1", "1.2.3", "::", "fe80::1%eth0", "::ffff:1.2.3.4", "2001:db8::1", "1::2::3",
 		"##", "#@#", "#?#", "#$#", "#%#", "$$", "$@$", "#@$?#", ".*", "example.*", "~example.org", "/", "^", "||", "@@", "=", ".banner", "div[id=\"ad\"]",
-		"$domain=example.org", "# comment", "  ", "\t\t")
+		"$domain=example.org", "# comment", "  ", "\t\t", "\v", "\f", "\u00a0", "\u0085", "\r")
 	byKind := map[string]int{}
 	panics := 0
 	for out.n < n {
@@ -298,7 +299,7 @@ func cmdDriveLineKind(args []string) error {
 		}
 		addrs := []map[string]any{}
 		seenLit := map[string]bool{}
-		for _, f := range strings.FieldsFunc(line, func(r rune) bool { return r == ' ' || r == '\t' }) {
+		for _, f := range strings.FieldsFunc(strings.TrimSpace(line), func(r rune) bool { return r == ' ' || r == '\t' }) {
 			// the model cuts the comment first; a field of the cut line is a prefix of a field of the whole line
 			for _, cand := range []string{f, strings.SplitN(f, "#", 2)[0]} {
 				if a, err := netip.ParseAddr(cand); err == nil && !seenLit[cand] {
